@@ -61,8 +61,11 @@ func c12Patches() []c12Patch {
 	chChain := "# DESCTOKEN-C\n@@\nvar x expression\n@@\n-g1(x)\n+h1(x)\n"
 	// '#' lines inside a change (metavariable section, body) are comments, never descriptions of this or the next change
 	chAinner := "# DESCTOKEN-A first\n@@\n# inner comment in the metavariable section\nvar x expression\n@@\n# inner comment in the body\n-f1(x)\n+g1(x)\n# trailing comment of the body\n\n"
+	chNoop := "# DESCTOKEN-NOOP\n@@\nvar a, b expression\n@@\n-swap(a, b)\n+swap(b, a)\n"
 	chShrink := "# DESCTOKEN-SHRINK\n@@\nvar x expression\n@@\n-veryLongFunctionName(x)\n+s(x)\n"
 	return []c12Patch{
+		{"noop-swap", []string{chNoop}},
+		{"noop-swap+A", []string{chNoop + "\n" + chA}},
 		{"shrink", []string{chShrink}},
 		{"shrink+A", []string{chShrink + "\n" + chA}},
 		{"Ainner+B", []string{chAinner + chB}},
@@ -143,7 +146,7 @@ var c12Sources = map[string]string{
 	"gen.go":  "// Code generated by x. DO NOT EDIT.\n\npackage a\n\nfunc H() int {\n\tv := f1(1)\n\treturn v + f2(2)\n}\n",
 	"nonl.go": "package a\n\nvar A = f1(1)\n\nvar B = 2\n\nvar C = 3\n\nvar D = 4\n\nvar E = 5\n\nvar Z = 26",
 	"crlf.go": "package a\r\n\r\nvar A = f1(1)\r\n\r\nvar B = f2(2)\r\n",
-	"ugly.go": "package a\nfunc U( ) {  x:=f2( 1 );_ = x\n  f1(x)}\n",
+	"ugly.go": "package a\nfunc U( ) {  x:=f2( 1 );_ = x\n  f1(x);swap( x,x )}\n",
 	// hl.go and hl2.go have a second hard link outside the processed tree; the patch "shrink" makes them shorter
 	"hl.go":      "package a\n\nvar H = veryLongFunctionName(1) + veryLongFunctionName(2)\n\nvar I = f1(3)\n",
 	"hl2.go":     "package a\n\nfunc H2() {\n\tveryLongFunctionName(f2(4))\n}\n",
@@ -160,6 +163,8 @@ func c12Applies(change string, src string) bool {
 		return false // only used to decide which descriptions may be reported
 	}
 	switch {
+	case strings.Contains(change, "-swap(a, b)"):
+		return strings.Contains(src, "swap(")
 	case strings.Contains(change, "-veryLongFunctionName(x)"):
 		return strings.Contains(src, "veryLongFunctionName(")
 	case strings.Contains(change, "-f1(x)"):
